@@ -259,16 +259,11 @@ func checkC18(raw json.RawMessage) (ev.Result, error) {
 	if c.Format == "config" {
 		p, err := loadLikeSandbox([]byte(run.stdout))
 		if err != nil {
-			if len(wantList) == 0 {
-				// an empty allow-list: whether such a profile must load is not settled (a group without names); only the emitted list is compared
-				res.Classes = append(res.Classes, "empty-profile-does-not-load(no-claim)")
-				got = profileNames(run.stdout)
-			} else {
-				return res, fmt.Errorf("the emitted YAML profile does not load through the configuration path: %v\n%s", err, clip(run.stdout, 800))
-			}
+			// (also for an empty allow-list: the statement has the emitted profile load and answer errno to everything)
+			return res, fmt.Errorf("the emitted YAML profile (%d names expected) does not load through the configuration path: %v\n%s", len(wantList), err, clip(run.stdout, 800))
 		} else {
 			loaded = p
-			if len(p.Syscalls) == 0 {
+			if len(p.Syscalls) == 0 && len(wantList) > 0 {
 				return res, fmt.Errorf("the emitted profile has no group")
 			}
 			if p.DefaultAction != seccomp.ActionErrno {
@@ -311,7 +306,10 @@ func checkC18(raw json.RawMessage) (ev.Result, error) {
 	}
 	// closure: the YAML profile, loaded as the sandbox would and compiled for the
 	// binary's architecture, allows exactly those syscalls and answers errno to all others
-	if loaded != nil && len(wantList) > 0 {
+	if loaded != nil {
+		if len(wantList) == 0 {
+			res.Classes = append(res.Classes, "empty-profile-loads-and-denies-everything")
+		}
 		seccomp.VerifSetArch(loaded, spec.ArchInfo(archName))
 		insts, err, pan := assembleHost(loaded)
 		if pan != nil || err != nil {
